@@ -77,7 +77,7 @@ BUDGET = {'quick': 120, 'thorough': 1500}
 
 CHANS   = {'control': rpc.CONTROL_PUBSUB, 'state': rpc.STATE_PUBSUB}
 PROXIES = [rpc.PROXY_CONTROL_PUBSUB, rpc.PROXY_STATE_PUBSUB]
-SRCS    = ['publish', 'advance', 'rpc_req', 'rpc_res', 'rpc_call']
+SRCS    = ['publish', 'advance', 'rpc_req', 'rpc_res', 'rpc_call', 'client_api']
 ORIGINS = ['absent', 'own', 'other', 'unknown']
 UNKNOWN = ['pilot.9999', 'agent', '', 'CLIENT']
 MARKERS = ('fwd', 'origin')
@@ -120,6 +120,9 @@ def enum_cases(tier):
                         yield case(_msg(side, 'state', 'advance', fwd, final=final))
                     yield case(_msg(side, 'control', 'rpc_req', fwd))
                     yield case(_msg(side, 'control', 'rpc_res', fwd))
+                for fwd in (None, False, True):
+                    for o in ('absent', 'own', 'unknown'):
+                        yield case(_msg(side, 'control', 'client_api', fwd, o))
                 for k in range(n_s):
                     # 'other' here = index of the addressed side among ALL sides
                     yield case(_msg(side, 'control', 'rpc_call', None, other=k))
@@ -132,7 +135,7 @@ def sequences(draw):
     msgs = []
     for _ in range(draw(st.integers(1, 6))):
         src = draw(st.sampled_from(['publish'] * 5 + ['advance'] * 2 +
-                                   ['rpc_req', 'rpc_res', 'rpc_call']))
+                                   ['rpc_req', 'rpc_res', 'rpc_call', 'client_api']))
         msgs.append(_msg(side=draw(st.integers(0, n_s - 1)),
                          chan=draw(st.sampled_from(['control', 'state'])),
                          src=src,
@@ -274,7 +277,9 @@ def run_case(case):
         chan  = m['chan'] if m['chan'] in CHANS else 'control'
 
         try:
-            if src == 'publish':
+            if src in ('publish', 'client_api'):
+                if src == 'client_api':
+                    chan = 'control'            # rp.Client publishes on the control channel only
                 msg = {'cmd': 'verif', 'mid': 'msg.%06d' % i,
                        'arg': {'n': i, 'l': [1, 'x', None], 'd': {'k': 1.5}}}
                 if fwd is not None:
@@ -290,7 +295,16 @@ def run_case(case):
                 elif o_cls == 'unknown':
                     msg['origin'] = UNKNOWN[int(m['other']) % len(UNKNOWN)]
                 key, f, sent = ('msg.%06d' % i, 'raw'), fwd, copy.deepcopy(msg)
-                s.comp.publish(CHANS[chan], msg)
+                if src == 'client_api':
+                    # the documented client API (rp.Client, usable from the application and from
+                    # inside a task): attached to this side's control bridge
+                    cl = rp.Client.__new__(rp.Client)
+                    cl._log = boot.LOG
+                    cl._ctrl_pub = ru.zmq.Publisher(channel=rpc.CONTROL_PUBSUB,
+                                       url=s.sess._reg['bridges.%s' % rpc.CONTROL_PUBSUB]['addr_pub'])
+                    cl.send_ctrl_msg(rpc.CONTROL_PUBSUB, msg)
+                else:
+                    s.comp.publish(CHANS[chan], msg)
 
             elif src == 'advance':
                 chan  = 'state'
